@@ -33,7 +33,13 @@ func (prog *Progress) init() {
 	if prog.Cfg == nil {
 		prog.Cfg = &Config{}
 	}
-	prog.Cfg.init()
+	if prog.Cfg.Ctx == nil || prog.Cfg.LinkTargetNodePrototypeChooser == nil {
+		// Fill in the defaults on a copy: the caller's Config may be shared by concurrent traversals,
+		// and must not be written to.
+		cfg := *prog.Cfg
+		cfg.init()
+		prog.Cfg = &cfg
+	}
 	if prog.Cfg.LinkVisitOnlyOnce {
 		prog.SeenLinks = make(map[datamodel.Link]struct{})
 	}
